@@ -33,7 +33,7 @@ META = {
                   "observation sequences of length <= 3 (values 1..3, 2 instants), and search = pairwise; transitivity over all triples; 17 "
                   "documented rewrites recognised and 8 non-equivalences kept apart; _mask_bytes for all 2^32 x 33 (thorough: also 2^128 x 129) "
                   "inputs by pysym; special-value handling never crashes for any constant kind and normal forms are fixed points.",
-    "level_text_more": 'Also: 6 pattern shapes with repeated AND/FOLLOWEDBY operands (multiplicity matters); the 17 documented rewrites inside 19 comparison- and observation-level contexts; ipv4/ipv6 value canonicalisation against an independent strict reading over 12 addresses x 29 spellings. Integer constants beyond 2^53 (neighbours and the adjacent double are different constants).',
+    "level_text_more": 'Also: 6 pattern shapes with repeated AND/FOLLOWEDBY operands (multiplicity matters); the 17 documented rewrites inside 19 comparison- and observation-level contexts; ipv4/ipv6 value canonicalisation against an independent strict reading over 12 addresses x 29 spellings. Integer constants beyond 2^53 (neighbours and the adjacent double are different constants). Rounds 5-6: special-value canonicalisation confined to its paths, object types and operators (56 non-equivalences, each after a fixed history of special-value comparisons, also by search); the path matcher over every path of <= 4 steps x 6 patterns; search agrees with the pairwise test across object types; index steps vs keys of the same digits.',
     "level_note": "ANTLR parsing trusted; semantics of LIKE/MATCHES/ISSUBSET are opaque (not evaluated); the reference semantics is mine, written from "
                   "the specification. Shapes are fixed (<= 3 atoms / leaves); text-level obligations are selector-enumerated over tables. "
                   "CIDR canonicalisation under '=' is the library's documented design and is not judged against string equality.",
